@@ -59,6 +59,14 @@ type Incarnation struct {
 	Newest    time.Time // newest heartbeat/dir stamp
 	Removed   bool
 	RemovedBy string
+	// FirstRemoveIn is the instant of the first effective removal of an entry inside the lock directory (somebody has
+	// begun to release it: the directory is in a transitional state from then on).
+	// GuttedBy names the actor which, from inside an Unlock that had begun before this incarnation existed (its retry
+	// loop), removed an entry INSIDE this incarnation's directory: the successor's lock has been damaged by the
+	// predecessor's release, what follows (an empty directory read as stale, a take-over) is a consequence.
+	GuttedBy         string
+	FirstRemoveIn    time.Time
+	FirstRemoveInSeq int64 // its event sequence number (several events share one instant of the virtual clock)
 	// EndKind tells how the incarnation ended: "owner" (removed by its creator), "foreign-stale" (removed by somebody else
 	// while stale or while its owner was dead), "foreign-owner-releasing", "foreign-judged" (removed live by somebody else).
 	EndKind string
@@ -86,7 +94,8 @@ type World struct {
 	Base     afero.Fs
 	Mon      *fsmon.Monitor
 	S        *sched.Sched
-	Rs       *sched.Restamper
+	Rs       Stamper
+	Mem      bool // in-memory backend (afero MemMapFs): its own modification times, on the bubble's clock
 	Start    time.Time
 
 	mu         sync.Mutex
@@ -305,14 +314,38 @@ func (w *World) maybeStop(e *fsmon.Event) {
 }
 
 // NewWorld creates the world. dir must exist (real OS directory, fresh per case).
+// Stamper feeds the world with the modification times objects get (see sched.Restamper and sched.StampObserver).
+type Stamper interface {
+	Before(e *fsmon.Event)
+	After(e *fsmon.Event)
+}
+
+// NewWorld is a world over the OS filesystem.
 func NewWorld(dir, lockID string, s *sched.Sched) *World {
-	w := &World{Dir: dir, LockID: lockID, Base: filesystem.NewExtendedOsFs(), Mon: fsmon.NewMonitor(false), S: s,
+	return NewWorldOn(filesystem.NewExtendedOsFs(), false, dir, lockID, s)
+}
+
+// NewMemWorld is a world over a fresh in-memory backend (dir is created in it).
+func NewMemWorld(dir, lockID string, s *sched.Sched, createDir bool) *World {
+	base := afero.NewMemMapFs()
+	if createDir {
+		_ = base.MkdirAll(dir, 0o755)
+	}
+	return NewWorldOn(base, true, dir, lockID, s)
+}
+
+func NewWorldOn(base afero.Fs, mem bool, dir, lockID string, s *sched.Sched) *World {
+	w := &World{Dir: dir, LockID: lockID, Base: base, Mem: mem, Mon: fsmon.NewMonitor(false), S: s,
 		curCall: map[string]string{}, incAtCall: map[string]int{}, rmTries: map[string]int{}, winStart: map[string]time.Time{}, releasing: map[string]bool{}, holding: map[string]bool{},
 		dead: map[string]bool{}, wasHolder: map[string]bool{},
 		opCount: map[string]int{}, stopAfter: map[string]int{}, stopped: map[string]bool{}, onStop: map[string]func(){},
 		faults: map[string]Fault{}, FaultHit: map[string]string{}}
 	w.LockPath = filepath.Join(dir, fmt.Sprintf("%v-%v", filesystem.LockFilePrefix, lockID))
-	w.Rs = &sched.Restamper{Base: w.Base, OnStamp: w.onStamp}
+	if mem {
+		w.Rs = &sched.StampObserver{Base: w.Base, OnStamp: w.onStamp}
+	} else {
+		w.Rs = &sched.Restamper{Base: w.Base, OnStamp: w.onStamp}
+	}
 	w.Mon.Before = w.before
 	w.Mon.After = w.after
 	w.Start = time.Now()
@@ -329,9 +362,18 @@ func Names(i int) (subdir, id string) {
 		return "out{debug,release}", "l*k?[a]"
 	case 6:
 		return "plain", "lk [x]"
+	case 4:
+		// the directory to lock does not exist (yet): see MissingDir
+		return "not-there/yet", "lk"
 	}
 	return "", "lk"
 }
+
+// MemBackend reports whether the i-th scenario runs on the in-memory backend.
+func MemBackend(i int) bool { return i%5 == 2 }
+
+// MissingDir reports whether the directory of the i-th scenario is left uncreated.
+func MissingDir(i int) bool { return i%7 == 4 }
 
 // VFS returns a new library filesystem for an actor (own decorator, shared backend and monitor).
 func (w *World) VFS(actor string) *filesystem.VFS {
@@ -389,6 +431,14 @@ func (w *World) after(e *fsmon.Event) {
 				w.dirEvents = append(w.dirEvents, DirEvent{At: time.Now(), Inc: w.cur.ID, Kind: "create", Path: filepath.Clean(e.Path)})
 			case e.Op == fsmon.OpRemove || e.Op == fsmon.OpRemoveAll:
 				w.dirEvents = append(w.dirEvents, DirEvent{At: time.Now(), Inc: w.cur.ID, Kind: "remove", Path: filepath.Clean(e.Path)})
+				if e.Actor != w.cur.Owner && w.incAtCall[e.Actor] != w.cur.ID && w.cur.GuttedBy == "" &&
+					((strings.HasPrefix(w.curCall[e.Actor], "Unlock") && w.wasHolder[e.Actor]) || w.rmTries[e.Actor] >= 1) {
+					w.cur.GuttedBy = e.Actor
+				}
+				if w.cur.FirstRemoveIn.IsZero() {
+					w.cur.FirstRemoveIn = time.Now()
+					w.cur.FirstRemoveInSeq = e.Seq
+				}
 			}
 		}
 		w.mu.Unlock()
@@ -456,6 +506,9 @@ func (w *World) after(e *fsmon.Event) {
 							lookedAtStale = w.staleReadable(la.ID, w.winStart[e.Actor], time.Now())
 						}
 						switch {
+						case inc.GuttedBy != "":
+							// the heartbeat file of this lock had been removed by the retry loop of a predecessor's Unlock
+							fr.Class = "unlock-retry-removes-successor"
 						case createdDuring && strings.HasPrefix(fr.RemoverCall, "Unlock") && w.wasHolder[e.Actor]:
 							fr.Class = "unlock-retry-removes-successor"
 						case createdDuring && w.rmTries[e.Actor] >= 2:
